@@ -11,6 +11,7 @@
 //   - a method call whose name is that of a sync / sync/atomic operation
 //     (Load, Store, CompareAndSwap, Swap, Add, LoadOrStore, Lock, Get, Put, ...;
 //     a name match is enough: a superfluous yield point is harmless),
+//
 // the statement `verifAutoYield("auto.<kind>")` is inserted before it (and at
 // the top of the body of a loop whose condition contains one: spin loops). A
 // statement `x.Lock()` / `x.RLock()` is preceded by `verifAutoAwait(x.TryLock,
@@ -113,6 +114,14 @@ func verifAutoAwait(try func() bool, unlock func()) {
 	}
 	unlock()
 }
+
+func verifAutoOnceFn(f func()) func() {
+	return func() {
+		VerifYield("auto.onceEnter")
+		defer VerifYield("auto.onceLeave")
+		f()
+	}
+}
 `)
 	} else {
 		b.WriteString(`import "github.com/philpearl/plenc/plenccore"
@@ -128,6 +137,14 @@ func verifAutoAwait(try func() bool, unlock func()) {
 		h("mutex.wait")
 	}
 	unlock()
+}
+
+func verifAutoOnceFn(f func()) func() {
+	return func() {
+		plenccore.VerifYield("auto.onceEnter")
+		defer plenccore.VerifYield("auto.onceLeave")
+		f()
+	}
 }
 `)
 	}
@@ -331,6 +348,9 @@ func (r *rewriter) stmts(list []ast.Stmt) []ast.Stmt {
 			// the call runs later; function literals inside are handled below
 		}
 		r.funcLits(s)
+		if !noLock && r.onceCalls(s) {
+			kind = "onceWait"
+		}
 		if kind != "" {
 			out = append(out, yieldStmt(kind))
 			r.insertions++
@@ -387,6 +407,41 @@ func (r *rewriter) caseBodies(b *ast.BlockStmt) {
 			cc.Body = r.stmts(cc.Body)
 		}
 	}
+}
+
+// onceCalls wraps the argument of every x.Do(f) in the statement's own
+// expressions: x.Do(verifAutoOnceFn(f)), which tells the simulator when a task
+// is inside a once function (sync.Once.Do blocks everybody else meanwhile; the
+// yield point "auto.onceWait" before the statement waits for that by yielding).
+func (r *rewriter) onceCalls(s ast.Stmt) bool {
+	found := false
+	switch s.(type) {
+	case *ast.ExprStmt, *ast.AssignStmt, *ast.ReturnStmt, *ast.DeferStmt:
+	default:
+		return false
+	}
+	if _, isDefer := s.(*ast.DeferStmt); isDefer {
+		return false
+	}
+	ast.Inspect(s, func(x ast.Node) bool {
+		switch c := x.(type) {
+		case *ast.FuncLit, *ast.BlockStmt:
+			return false
+		case *ast.CallExpr:
+			if sel, ok := c.Fun.(*ast.SelectorExpr); ok && sel.Sel.Name == "Do" && len(c.Args) == 1 {
+				if id, isIdent := sel.X.(*ast.Ident); isIdent {
+					if _, isPkg := r.pkgIdents[id.Name]; isPkg && id.Obj == nil {
+						return true
+					}
+				}
+				c.Args[0] = &ast.CallExpr{Fun: ast.NewIdent("verifAutoOnceFn"), Args: []ast.Expr{c.Args[0]}}
+				found = true
+				return false
+			}
+		}
+		return true
+	})
+	return found
 }
 
 // funcLits rewrites the bodies of function literals that occur in the
